@@ -237,3 +237,59 @@ func stripLine(s, prefix string) string {
 	}
 	return out
 }
+
+// VerifH_C14_StatusRefine: a refine is a reference from the uses to a node of a
+// grouping of the same module: the refined node (and every node on the refine path)
+// must not be more obsolete than the uses (RFC 6020 7.19.2), and status may only weaken
+// downwards once the grouping is instantiated.
+func VerifH_C14_StatusRefine() {
+	sc := vrt.Choice("s.container", 3)  // none, current, deprecated
+	sgl := vrt.Choice("s.gl", 4)        // status written on grouping leaf gl
+	sgc := vrt.Choice("s.gc", 4)        // ... on grouping container gc
+	sgcl := vrt.Choice("s.gcl", 4)      // ... on leaf gcl inside gc
+	target := vrt.Choice("refine", 4)   // 0 none, 1 gl, 2 gc, 3 gc/gcl
+	refine := ""
+	switch target {
+	case 1:
+		refine = " refine gl { description 'r'; }"
+	case 2:
+		refine = " refine gc { description 'r'; }"
+	case 3:
+		refine = " refine gc/gcl { description 'r'; }"
+	}
+	text := "module m { namespace 'urn:m'; prefix m; " +
+		"grouping g { leaf gl {" + c14Status[sgl] + " type string; } container gc {" + c14Status[sgc] + " leaf gcl {" + c14Status[sgcl] + " type string; } } } " +
+		"container c {" + c14Status[sc] + " uses g {" + refine + " } } }"
+	rc := statusRank(sc, 0)
+	rgl := statusRank(sgl, rc)
+	rgc := statusRank(sgc, rc)
+	rgcl := statusRank(sgcl, rgc)
+	ok := true
+	// status only weakens downwards
+	if rgl < rc || rgc < rc || rgcl < rgc {
+		ok = false
+	}
+	// the refine references its target path from the uses (effective status of c)
+	switch target {
+	case 1:
+		if rgl > rc {
+			ok = false
+		}
+	case 2:
+		if rgc > rc {
+			ok = false
+		}
+	case 3:
+		if rgc > rc || rgcl > rc {
+			ok = false
+		}
+	}
+	vrt.Reach("c14.statusrefine")
+	_, err := compileTexts(map[string]string{"m": text}, featSet{}, nil)
+	if err != nil {
+		vrt.Observe("verdict", text, err.Error())
+	} else {
+		vrt.Observe("verdict", text, "ok")
+	}
+	vrt.Assert((err == nil) == ok, "c14.statusrefine.verdict")
+}
